@@ -193,7 +193,7 @@ func (in *inst) feedFlush(w *bufio.Writer) {
 		fmt.Fprintf(w, "R2 %s %s\n", opName(op.Type), tokBytes([]byte(safeKey(op.Data))))
 	}
 	ms := f.replica.VerifDump()
-	fmt.Fprintf(w, "RDUMP %d\n", len(ms))
+	fmt.Fprintf(w, "RDUMP %d %d\n", len(ms), nowMs()) // the clock after the records were applied
 	for _, m := range ms {
 		fmt.Fprintf(w, "RK %s %d %d %s\n", tokBytes([]byte(m.Name)), m.Expiration, m.ValueType, valueTokens(m.Value))
 	}
